@@ -226,6 +226,9 @@ def run(chk):
     table_window_rule(chk, prog)
     super_sanity_rule(chk, prog)
     alloc_size_rule(chk, prog, files)
+    from ..progress import run_doubling
+    run_doubling(chk, prog, "K1-double", lambda src: src.startswith(("lib/sqfs/", "lib/common/", "lib/util/")) and "/test/" not in src)
+    chk.floor("K1-double", 1)
     from ..dangling import run_dangling
     run_dangling(chk, prog, "K8-dangling",
                  lambda src: src.startswith(("lib/sqfs/", "lib/common/", "lib/util/", "bin/rdsquashfs/", "bin/sqfs2tar/", "bin/sqfsdiff/"))
